@@ -241,6 +241,8 @@ impl Executor {
     /// error is encountered.
     pub(crate) fn run(&mut self, timeout: Duration) -> Result<(), ExecutorError> {
         self.context.pool_manager.activate_worker();
+        #[cfg(asynchronix_verif)]
+        crate::verif_hooks::pause_point("mt_executor:run_before_first_idle_check");
 
         loop {
             if let Some((model_id, payload)) = self.context.pool_manager.take_panic() {
@@ -518,6 +520,8 @@ fn run_local_worker(worker: &Worker, id: usize, parker: Parker, abort_signal: Si
             if pool_manager.try_set_worker_inactive(id) {
                 // No need to call `begin_worker_search()`: this was done by the
                 // thread that unparked the worker.
+                #[cfg(asynchronix_verif)]
+                crate::verif_hooks::pause_point("mt_worker:inactive_before_count_fold");
                 update_msg_count();
                 parker.park();
             } else if injector.is_empty() {
@@ -528,6 +532,8 @@ fn run_local_worker(worker: &Worker, id: usize, parker: Parker, abort_signal: Si
                 // not activate a new worker, which is why some tasks may now be
                 // visible in the injector queue.
                 pool_manager.set_all_workers_inactive();
+                #[cfg(asynchronix_verif)]
+                crate::verif_hooks::pause_point("mt_worker:all_inactive_before_count_fold");
                 update_msg_count();
                 executor_unparker.unpark();
                 parker.park();
